@@ -240,6 +240,9 @@ var ekuOIDs = map[string][]int{
 	"serverAuth": certgen.EKUServerAuth, "clientAuth": certgen.EKUClientAuth, "emailProtection": certgen.EKUEmail,
 	"codeSigning": certgen.EKUCodeSigning, "any": certgen.EKUAny, "ocsp": certgen.EKUOCSP, "timeStamping": certgen.EKUTimeStamp,
 	"unknown": {1, 3, 6, 1, 4, 1, 99999, 7, 7},
+	// near misses of the usages that put a certificate in scope: a child arc, the parent arc (they are other usages)
+	"serverAuth.1": append(append([]int{}, certgen.EKUServerAuth...), 1), "emailProtection.1": append(append([]int{}, certgen.EKUEmail...), 1),
+	"any.1": append(append([]int{}, certgen.EKUAny...), 1), "kp(parent)": {1, 3, 6, 1, 5, 5, 7, 3}, "any(parent)": {2, 5, 29, 37},
 }
 
 func dotted(s string) []int {
@@ -496,6 +499,9 @@ func c04E2(ctx *core.Ctx, rep *core.Report, mocks []*lcMock) {
 				ekuSets = append(ekuSets, []string{ekuAtoms[i], ekuAtoms[j], ekuAtoms[k]})
 			}
 		}
+	}
+	for _, nm := range []string{"serverAuth.1", "emailProtection.1", "any.1", "kp(parent)", "any(parent)"} {
+		ekuSets = append(ekuSets, []string{nm}, []string{"clientAuth", nm})
 	}
 	var polSets [][]string
 	polSets = append(polSets, nil)
